@@ -133,13 +133,19 @@ fn handle<BIn>(req: &mut Request<BIn>) -> Option<ValidateSNIError> {
     let span = tracing::Span::current();
 
     // Grab (and own) the host header value
-    let host: Option<Authority> = if req.version() == http::Version::HTTP_2 {
-        req.uri().authority().cloned()
-    } else {
+    let host_header = || -> Option<Authority> {
         req.headers()
             .get(header::HOST)
             .and_then(|h| h.to_str().ok())
             .and_then(|s| s.parse().ok())
+    };
+
+    // HTTP/2 names the host in the `:authority` pseudo-header; a request without
+    // one may still carry a Host header, which is validated like any other.
+    let host: Option<Authority> = if req.version() == http::Version::HTTP_2 {
+        req.uri().authority().cloned().or_else(host_header)
+    } else {
+        host_header()
     };
 
     // Grab the TLS connection info
